@@ -597,6 +597,12 @@ func TestCurrency(t *testing.T) {
 		checkFloatToCoin(rt, f)
 		checkMultFloat(rt, a, f)
 		checkMultFloat(rt, b, f)
+		// related operands: a share 1/n (or k/n) of a multiple of n; two whole numbers of 21..33 bits each
+		n := uint64(gen.Uniform(rt, 1, 5000, "sharen"))
+		mult := n * uint64(gen.Uniform(rt, 0, 1<<21, "sharemult"))
+		checkMultFloat(rt, mult, 1/float64(n))
+		checkMultFloat(rt, mult, float64(gen.Uniform(rt, 1, 7, "sharek"))/float64(n))
+		checkMultFloat(rt, uint64(gen.Uniform(rt, 1<<21, 1<<33, "wholec")), float64(gen.Uniform(rt, 1<<21, 1<<33, "wholea")))
 		checkParse(rt, f)
 		checkToZCN(rt, a)
 		checkToZCN(rt, b%1000000000000000)
